@@ -93,6 +93,31 @@ def _name(v):
     return f"n{v}"
 
 
+def lift_tokens(model, prefix="state.tokens"):
+    """a record list of TokenA -> real Token objects (pairwise distinct); atoms decoded through the model's atom table"""
+    from markdown_it.token import Token
+
+    n = int(_const(model, f"len({prefix})", 0))
+    if n > 40:
+        return None
+    atoms = model.get("atoms", {})
+
+    def atom(v):
+        return atoms.get(str(v), f"k{v}")
+
+    ty = _arr(model, f"{prefix}.type", n)
+    ne = _arr(model, f"{prefix}.nesting", n)
+    lv = _arr(model, f"{prefix}.level", n)
+    co = _arr(model, f"{prefix}.content", n)
+    out = []
+    for i in range(n):
+        t = Token(atom(ty[i]) or "k0", "", max(-1, min(1, ne[i])) if False else ne[i])
+        t.level = lv[i]
+        t.content = atom(co[i])
+        out.append(t)
+    return out
+
+
 def replay_obligation(ob, contracts_mod: str):
     """Try to reproduce a failed pyvc obligation natively. Returns dict(lifted, observed, replayed)."""
     info = {"lifted": None, "observed": None, "replayed": False}
@@ -166,6 +191,17 @@ def replay_obligation(ob, contracts_mod: str):
             fn = lambda **kw: meth(**kw)  # noqa: E731
             info["lifted"] = {"constructor": "Ruler() + Rule records from the model", "arguments": {"rules": [(x.name, x.enabled, list(x.alt)) for x in r.__rules__], "cache_is_none": r.__cache__ is None,
                                                                                                    **{k: (v if not callable(v) else "<fn>") for k, v in args.items() if k != "self"}}}
+        elif q.endswith("fragments_join.fragments_join"):
+            from types import SimpleNamespace
+
+            toks = lift_tokens(model)
+            if toks is None:
+                return info
+            st = SimpleNamespace(tokens=toks, delimiters=[], tokens_meta=[None] * len(toks))
+            args = {"state": st}
+            fn = getattr(importlib.import_module(".".join(parts[:-1])), parts[-1])
+            info["lifted"] = {"constructor": "namespace with a tokens list of Token(type, nesting, level, content) from the model",
+                              "arguments": {"tokens": [(t.type, t.nesting, t.level, t.content) for t in toks]}}
         else:
             return info
         mon = Monitor(c, mod.SPECFUNS)
